@@ -109,6 +109,65 @@ theorem gemmx_counts_fixed (n : Nat) (op : GemmxOp) (P : GParams) (h : gemmxPara
         · simp at h
     · simp at h
 
+/-- The count clause for mac/qmac with i8 output, whatever chain of generics the region has (the rescale
+parameters are those of the LAST generic if it is a rescale, the defaults otherwise), on either tree, for every
+geometry: clause `hchan` — per-channel arrays are per-tensor (length 1) or cover the `n` columns (D81 otherwise). -/
+theorem gemmx_counts_i8 (v : Variant) (n : Nat) (op : GemmxOp) (P : GParams) (zp : Option (Nat × Nat))
+    (hk : op.kernel = .mac zp) (hi : op.i8out = true) (h : gemmxParams v n op = .ok P)
+    (hchan : ∀ r, op.post = some r → (r.shifts.length = 1 ∨ n ≤ r.shifts.length) ∧
+      (r.mults.length = 1 ∨ n ≤ r.mults.length)) :
+    P.shifts.length = ceil4 n ∧ P.mults.length = n :=
+  SV.gemmx_counts_i8 v n op P zp hk hi h hchan
+
+/-- What the mac/qmac kernel registers carry, for every region shape: `M` = number of non-reduction steps of the
+output stream (operand 2 for i8, the last operand for i32), `N = 1`, `K = steps(A) // M`; with i8 output csr0/csr1,
+the multipliers and `temporal_loop_bound = M` come from `effRescale` = the rescale kernel of the generic in front of
+the region's yield (single values broadcast to n channels) or the no-rescale defaults. -/
+theorem gemmx_mac_params (v : Variant) (n : Nat) (op : GemmxOp) (P : GParams) (zp : Option (Nat × Nat))
+    (hk : op.kernel = .mac zp) (h : gemmxParams v n op = .ok P) :
+    ∃ last p0, (if op.i8out then op.s.pats[2]? else op.s.pats.getLast?) = some last ∧ op.s.pats[0]? = some p0 ∧
+      P.m = prodI ((last.dims.filter fun d => d.2 ≠ 0).map (·.1)) ∧ P.n = 1 ∧
+      P.k = Int.fdiv (prodI (p0.dims.map (·.1))) P.m ∧
+      (op.i8out = true →
+        P.mults = ((effRescale n op).mults.map Val.c).take n ∧ P.tlb = .c P.m ∧ P.byp = .c 0 ∧
+        P.csr1 = .c (effRescale n op).dr ∧
+        P.csr0 = csr0Val (effRescale n op).minI (effRescale n op).maxI (effRescale n op).outZp (effRescale n op).inZp) := by
+  obtain ⟨last, p0, h1, h2, h3, _, h5, h6, h7⟩ := gemmxParams_mac_inv v n op P zp hk h
+  refine ⟨last, p0, h1, h2, h3, h5, h6, fun hi => ?_⟩
+  obtain ⟨_, _, _, hm, ht, hb, hc1, hc0⟩ := h7 hi
+  exact ⟨hm, ht, hb, hc1, hc0⟩
+
+/-- full statement: the kernel loop counts multiply to the number of temporal steps of stream A -/
+def loopcount_gemmx_statement : Prop :=
+  ∀ (v : Variant) (n : Nat) (op : GemmxOp) (P : GParams) (p0 : Pattern), gemmxParams v n op = .ok P →
+    op.s.pats[0]? = some p0 → P.k * P.n * P.m = prodI (p0.dims.map (·.1))
+
+/-- clause `hdiv`: the output loops are a sub-nest of A's loops, i.e. `M` divides the number of steps of A
+(always true for the rescale-only kernel, where K = N = 1 and M = steps). -/
+theorem loopcount_gemmx_partial (v : Variant) (n : Nat) (op : GemmxOp) (P : GParams)
+    (h : gemmxParams v n op = .ok P) (p0 : Pattern) (hp0 : op.s.pats[0]? = some p0)
+    (hdiv : P.m ∣ prodI (p0.dims.map (·.1))) : P.k * P.n * P.m = prodI (p0.dims.map (·.1)) :=
+  gemmx_loopcount v n op P h p0 hp0 hdiv
+
+def lcOp : GemmxOp :=
+  { s := { pats := [ { dims := [(6, 8)], ss := [8] }, { dims := [(4, 8)], ss := [8] } ], zero := [false, false] },
+    generics := [.mac none], i8out := false }
+
+/-- `K = steps(A) // M` floors: 6 steps of A against 4 output steps give K·N·M = 4. -/
+theorem loopcount_gemmx_fails : ¬ loopcount_gemmx_statement := by
+  intro h
+  have hv : ∃ P, gemmxParams .fixed 8 lcOp = .ok P ∧ P.k * P.n * P.m = 4 := ⟨_, rfl, by decide⟩
+  obtain ⟨P, hP, h4⟩ := hv
+  have := h .fixed 8 lcOp P { dims := [(6, 8)], ss := [8] } hP rfl
+  rw [h4] at this
+  simp [prodI] at this
+
+/-- the seeded-change shape: qmac → add → rescale takes its parameters from the trailing rescale, not from the
+generic that follows the matmul -/
+example : (effRescale 8 (GemmxOp.mk default [.mac none, .other,
+    .rescale { inZp := 1, outZp := 2, maxI := 100, minI := -100, dr := 1, shifts := [7], mults := [5] }]
+    true)).mults = List.replicate 8 5 := by decide
+
 def gemmxDefault : List Streamer :=
   [ { tdims := [.n, .n, .n, .n, .n, .n], sdims := [8], opts := [.ext .transpose, .remap] },
     { tdims := [.n, .n, .n], sdims := [8], opts := [.ext .transpose, .remap] },
@@ -121,8 +180,8 @@ def rescaleOnlyOp : GemmxOp :=
                      { dims := [(2, 64), (3, 128)], ss := [8] }, { dims := [(2, 64), (3, 128)], ss := [8, 64] },
                      { dims := [(0, 0), (0, 0), (0, 0)], ss := [8, 64] } ],
            zero := [true, true, false, false, false] },
-    kernel := .rescale { inZp := 1, outZp := 2, maxI := 127, minI := -128, dr := 0, shifts := [3], mults := [4] },
-    i8out := true, post := none }
+    generics := [.rescale { inZp := 1, outZp := 2, maxI := 127, minI := -128, dr := 0, shifts := [3], mults := [4] }],
+    i8out := true }
 
 /-- D11 (pristine tree): the rescale-only kernel on the default geometry yields 74 values for 80 fields. -/
 theorem gemmx_rescale_pristine_fails : ¬ aligned_gemmx_statement .pristine := by
@@ -140,9 +199,8 @@ example : ∃ vs, gemmxVals .fixed gemmxDefault 8 rescaleOnlyOp = .ok vs ∧ vs.
 
 def shortChannelsOp : GemmxOp :=
   { rescaleOnlyOp with
-    kernel := .mac none,
-    post := some { inZp := 0, outZp := 0, maxI := 127, minI := -128, dr := 0,
-                   shifts := [1, 2, 3, 4], mults := [5, 6, 7, 8] } }
+    generics := [.mac none, .rescale { inZp := 0, outZp := 0, maxI := 127, minI := -128, dr := 0,
+                                       shifts := [1, 2, 3, 4], mults := [5, 6, 7, 8] }] }
 
 /-- D81: mac + rescale with 4 per-channel shifts / multipliers on an n = 8 array: 74 values for 80 fields
 (also on the repaired tree). -/
